@@ -8,7 +8,7 @@
 use super::*;
 use crate::common::deque::verif_deque as dq;
 use crate::common::frequency_sketch::verif_sketch as sk;
-use crate::verif_models::common::{instant_at, le, IdH, Val, HK, MAXN, W1, WT_A, WT_S, YEARS_1000};
+use crate::verif_models::common::{instant_at, le, IdH, Val, HK, MAXN, W1, WT_2V, WT_A, WT_S, YEARS_1000};
 use std::hash::BuildHasherDefault;
 
 pub(crate) type BH = BuildHasherDefault<IdH>;
@@ -967,6 +967,52 @@ fn l_evict_lru_exact(cfg: &SCfg) {
     std::mem::forget(st);
 }
 
+/// evict_lru_entries that must remove BOTH residents (need = total weight): LRU first, counters to zero.
+fn l_evict_lru_both(cfg: &SCfg) {
+    let st = sbuild(cfg);
+    let g = st.g;
+    let inner = &*st.b.inner;
+    let mut counters = EvictionCounters::new(g.ec, g.ws);
+    {
+        let mut deqs = inner.deques.lock().expect("lock poisoned");
+        inner.evict_lru_entries(&mut deqs, 500, g.ws, &mut counters);
+        let (_, an, ok) = dq::walk::<KeyHashDate<u8>, { MAXN }>(&deqs.probation);
+        let (_, wn, wok) = dq::walk::<KeyDate<u8>, { MAXN }>(&deqs.write_order);
+        chk!(ok && wok && an == 0 && wn == 0, "C08,C11,C12: after evicting every resident no deque node may remain");
+    }
+    chk!(inner.cache.get(&0u8).is_none() && inner.cache.get(&1u8).is_none(), "C04,C12: eviction must go on until the required weight is freed");
+    chk!(counters.entry_count == 0 && counters.weighted_size == 0, "C10: eviction must give back exactly what it evicted");
+    chk!(!st.ent[0].as_ref().unwrap().is_admitted() && !st.ent[1].as_ref().unwrap().is_admitted(), "C10,C11: evicted entries still flagged admitted");
+    kani::cover!(true, "end reached");
+    std::mem::forget(st);
+}
+
+/// evict_expired on TWO residents in a concrete time class: removed iff hidden, the other stays.
+fn l_purge_two(cfg: &SCfg) {
+    let st = sbuild(cfg);
+    let g = st.g;
+    let inner = &*st.b.inner;
+    let mut counters = EvictionCounters::new(g.ec, g.ws);
+    {
+        let mut deqs = inner.deques.lock().expect("lock poisoned");
+        inner.evict_expired(&mut deqs, 500, &mut counters);
+    }
+    let (h0, h1) = (g.hidden(0), g.hidden(1));
+    chk!(inner.cache.get(&0u8).is_none() == h0 && inner.cache.get(&1u8).is_none() == h1, "C03,C05,C06,C07: maintenance removes an entry iff it is expired or invalidated (two residents)");
+    let want_ec = (!h0) as u64 + (!h1) as u64;
+    let want_ws = (if h0 { 0 } else { g.w[0] as u64 }) + (if h1 { 0 } else { g.w[1] as u64 });
+    chk!(counters.entry_count == want_ec && counters.weighted_size == want_ws, "C10: purge must give back count and weight of exactly what it removed (two residents)");
+    {
+        let deqs = inner.deques.lock().expect("lock poisoned");
+        let (_, an, ok) = dq::walk::<KeyHashDate<u8>, { MAXN }>(&deqs.probation);
+        let (_, wn, wok) = dq::walk::<KeyDate<u8>, { MAXN }>(&deqs.write_order);
+        chk!(ok && wok && an as u64 == want_ec && wn as u64 == if cfg.ttl { want_ec } else { 0 }, "C08,C11: purged entries' nodes must be unlinked from both deques, the others stay");
+    }
+    kani::cover!(h0 != h1, "exactly one of two expired");
+    kani::cover!(true, "end reached");
+    std::mem::forget(st);
+}
+
 /// evict_expired on ONE resident: removed iff hidden (ttl / tti / watermark), counters follow.
 fn l_purge_one(cfg: &SCfg) {
     let st = sbuild(cfg);
@@ -1055,6 +1101,12 @@ fn l_remove(cfg: &SCfg, j: usize) {
 sh!(l_upsert_admit_fits_unbounded, l_upsert_admit_fits(&sc(1, None, true, WT_A, true, false, false, 1)));
 sh!(l_upsert_admit_fits_cap, l_upsert_admit_fits(&sc(1, Some(1000), true, WT_A, false, false, false, 1)));
 sh!(l_evict_lru_exact_n2, l_evict_lru_exact(&sc(2, Some(5), true, WT_A, false, false, false, 1)));
+sh!(l_evict_lru_both_n2, l_evict_lru_both(&sc(2, Some(5), true, WT_A, false, false, false, 1)));
+sh!(l_evict_lru_both_n2_ttl, l_evict_lru_both(&sc(2, Some(5), true, WT_A, true, false, false, 1)));
+sh!(l_purge_two_ttl_one_expired, l_purge_two(&sc(2, Some(9), true, WT_A, true, false, false, 2)));
+sh!(l_purge_two_tti_one_expired, l_purge_two(&sc(2, Some(9), true, WT_A, true, true, false, 3)));
+sh!(l_purge_two_watermark_one_hidden, l_purge_two(&sc(2, Some(9), true, WT_A, false, false, true, 4)));
+sh!(l_purge_two_both_hidden, l_purge_two(&sc(2, Some(9), true, WT_A, true, false, true, 7)));
 sh!(l_purge_one_ttl_deadline, l_purge_one(&sc(1, Some(9), true, WT_A, true, false, false, 2)));
 sh!(l_purge_one_tti_live, l_purge_one(&sc(1, Some(9), true, WT_A, false, true, false, 1)));
 sh!(l_purge_one_watermark, l_purge_one(&sc(1, Some(9), true, WT_A, false, false, true, 4)));
@@ -1215,7 +1267,7 @@ fn l_apply_writes_update_then_remove() {
     std::mem::forget(st);
 }
 // not instantiated: out of memory (> 40 GB) -- with two queued ops the admission path of handle_upsert stays live
-// sh!(l_apply_writes_update_then_remove_q2, l_apply_writes_update_then_remove());
+sh!(l_apply_writes_update_then_remove_q2, l_apply_writes_update_then_remove());
 #[allow(dead_code)] fn _keep_l_apply_writes() { l_apply_writes_update_then_remove() }
 
 /// one whole Inner::sync: a queued Hit of resident 0 and a queued insert of a new key that fits
@@ -1484,6 +1536,49 @@ sh!(l_burst_shrink0_ins1_w_cap7_hot, l_burst(&sc(1, Some(7), true, WT_S, false, 
 sh!(l_burst_ins1_inv0_cap1_hot, l_burst(&sc(1, Some(1), false, W1, false, false, false, 1), 2, 1, &[Ins(1, 0), Inv(0)]));
 // no verdict within 60 min / 40 GB (./check ALL): not instantiated
 // sh!(l_burst_upd0_ins1_cap1_hot, l_burst(&sc(1, Some(1), false, W1, false, false, false, 1), 2, 1, &[Ins(0, 1), Ins(1, 0)]));
+
+// ================================================================================================
+// C12 / C13 / C04 / C10: admission that needs TWO victims (newcomer weight 2, two unit residents, full
+// cache): both are removed, LRU first, nothing else; with a cold newcomer nothing is touched.
+// ================================================================================================
+fn l_upsert_admission_2v(hot: bool, ttl: bool) {
+    sketch_mode(if hot { 2 } else { 1 }, 2);
+    let st = sbuild(&sc(2, Some(2), true, WT_2V, ttl, false, false, 1));
+    let g = st.g;
+    let inner = &*st.b.inner;
+    let k = Arc::new(2u8);
+    let info = TrioArc::new(EntryInfo::new(inst(g.now), 2));
+    crate::common::concurrent::entry_info::verif_entry_info::register_w(&info, 2, false, true, 2);
+    let ent: Ent = TrioArc::new(ValueEntry::new(Val { cls: 0, data: kani::any() }, info));
+    inner.cache.insert(Arc::clone(&k), TrioArc::clone(&ent));
+    let mut counters = EvictionCounters::new(g.ec, g.ws);
+    kani::cover!(true, "inputs chosen");
+    {
+        let mut deqs = inner.deques.lock().expect("lock poisoned");
+        let freq = inner.frequency_sketch.read().expect("lock poisoned");
+        inner.handle_upsert(KeyHash::new(Arc::clone(&k), IdH::h(2)), TrioArc::clone(&ent), 0, 2, &mut deqs, &freq, &mut counters);
+        let (nodes, an, ok) = dq::walk::<KeyHashDate<u8>, { MAXN }>(&deqs.probation);
+        let (_, wn, wok) = dq::walk::<KeyDate<u8>, { MAXN }>(&deqs.write_order);
+        chk!(ok && wok, "C08: deques damaged by an admission with two victims");
+        if hot {
+            chk!(an == 1 && nodes[0] == ao_ptr(&ent), "C12,C11,C08: after admitting over both residents only the newcomer's node remains");
+            chk!(wn == if ttl { 1 } else { 0 }, "C11,C05,C08: victims' write-order nodes must be unlinked (iff ttl)");
+        } else {
+            chk!(an == 2 && wn == if ttl { 2 } else { 0 }, "C13,C12: a rejected newcomer must not touch the residents' nodes");
+        }
+    }
+    chk!(inner.cache.get(&2u8).is_some() == hot, "C13: newcomer admitted iff strictly more popular than the summed popularity of the covering LRU prefix");
+    chk!(inner.cache.get(&0u8).is_some() == !hot && inner.cache.get(&1u8).is_some() == !hot, "C12,C13,C04: the victims are exactly the shortest LRU prefix covering the newcomer's weight (both residents), and only on admission");
+    chk!(counters.entry_count == if hot { 1 } else { 2 } && counters.weighted_size == 2, "C10,C04: counters after an admission over two victims / after a rejection");
+    chk!(ent.is_admitted() == hot, "C10: admitted flag");
+    if hot { chk!(!st.ent[0].as_ref().unwrap().is_admitted() && !st.ent[1].as_ref().unwrap().is_admitted(), "C10,C11: evicted victims still flagged admitted"); }
+    kani::cover!(true, "end reached");
+    std::mem::forget(ent);
+    std::mem::forget(st);
+}
+sh!(l_upsert_admission_two_victims_hot, l_upsert_admission_2v(true, false));
+sh!(l_upsert_admission_two_victims_hot_ttl, l_upsert_admission_2v(true, true));
+sh!(l_upsert_admission_two_victims_cold, l_upsert_admission_2v(false, true));
 
 // ================================================================================================
 // C03 / C01 / C10 (the F7 scenario, step-wise: the whole burst l_burst_ins1_inv0_ins1_cap1 found the
